@@ -152,6 +152,18 @@ def run(ctx):
         scs.append(scen("load-%s" % k, cond, [{"t": "load", "clients": 6, "calls": 10 if not thorough else 40,
                                                "kinds": ["add", "update", "update", "auth", "remove", "list"], "users": ["u1", "u2", "u3"],
                                                "pws": ["p1", "p2", "p3"]}, {"t": "free"}], files, mode="local"))
+    # a password whose evaluation takes seconds (zxcvbn's l33t matcher on ~100 characters), followed by weak and strong ones: every
+    # request is judged on its own password, however long an earlier evaluation took
+    slow = ("4@8({[<369&#!1/|0$5+7%2/" * 6)[:108]
+    steps = []
+    for i, (op, u, p) in enumerate((("update", "u2", "p5"), ("add", "u3", "p2"), ("add", "u3", "p3"), ("add", "u3", "p1"), ("update", "u3", "p2"),
+                                    ("update", "u2", "p5"), ("update", "u3", "p3"), ("update", "u3", "p1"), ("update", "u1", "p2"))):
+        steps.append({"t": "send", "c": "v%d" % i, "k": op, "u": u, "p": p, "a": False, "via": "api"})
+        steps.append({"t": "sleep", "n": 5})
+    steps.append({"t": "free"})
+    sl = scen("writes-after-slow-evaluation", "score >= 3", steps, files)
+    sl["passwords"] = dict(PWS, p5=slow)
+    scs.append(sl)
     results, events = af.run_scenarios(ctx, scs, "c17")
     nval = af.judge(ctx, scs, results, events, "c17", "C17")
     cov["traces_validated_against_impl"] = nval + pr["cases"]
